@@ -10,7 +10,7 @@ From Verif Require Import EngineRefineSpec EngineRefineSpecBlock EngineRefineSpe
      EngineRefineSpecBlock3 EngineRefineSpecHdr EngineRefineSpecReach EngineRefineSpecBuf
      EngineRefineSpecNeed EngineRefineSpecTop EngineRefineSpecFinal
      EngineCompleteSpecA EngineCompleteSpecB EngineCompleteSpecReach EngineCompleteSpecC
-     EngineCompleteSpecD EngineCompleteSpecE EngineCompleteSpecF.
+     EngineCompleteSpecD EngineCompleteSpecE EngineCompleteSpecF EngineCompleteSpecG.
 From Verif Require EngineRefineFinal EngineRefineDecomp EngineRefineBuf EngineRefineReach
      EngineRefineHeaderClc EngineRefineHeaderRL EngineRefineHBound
      EngineCompletePad EngineCompleteReach EngineCompleteHeader EngineCompleteSmall
@@ -18,7 +18,7 @@ From Verif Require EngineRefineFinal EngineRefineDecomp EngineRefineBuf EngineRe
      EngineCompleteHuffMain EngineCompleteDecomp EngineCompleteTop EngineCompleteRun
      EngineCompleteHeaderNeed3 EngineCompleteGlue3 EngineCompleteRdHdr3 EngineCompleteHuff3
      EngineCompleteDecomp3 EngineCompleteTop3 EngineCompleteRun3 EngineCompleteSmallFit
-     EngineRefineRdHdrA.
+     EngineRefineRdHdrA EngineCompleteStd.
 Import ListNotations.
 Open Scope N_scope.
 
@@ -134,6 +134,27 @@ Qed.
 Definition dist_fits_complete_final := EngineCompleteSmallFit.dist_fits_complete.
 Definition dist_fits_short_final : dist_fits_short_statement := EngineCompleteSmall.dist_fits_short.
 
+(* engine-independent strictness: every dynamic block has a complete distance code or one
+   without code words longer than 10 bits *)
+Definition strict_std_final : strict_std_statement := EngineCompleteStd.strict_std.
+
+(* (C) in its most readable form *)
+Theorem erun_complete_std :
+  forall data cs bufsize t reads,
+    Forall (fun x => x < 256) data -> concat cs = data -> Forall (fun c => c <> []) cs ->
+    status (Inflate.inflate [] data) = Done -> std_stream data ->
+    enough_reads data reads ->
+    let '(l, ncons) := erun_ext bufsize cs t reads in
+    no_fatal l ->
+    In REOF (map snd l) /\
+    results_bytes l = out (Inflate.inflate [] data) /\
+    ncons = (bitpos (Inflate.inflate [] data) + 7) / 8.
+Proof.
+  intros data cs bufsize t reads Hd Hc Hn Hdn Hstd Her.
+  exact (erun_complete data cs bufsize t reads Hd Hc Hn Hdn (strict_std_final data Hdn Hstd) Her).
+Qed.
+
 Print Assumptions erun_kinds.
+Print Assumptions erun_complete_std.
 Print Assumptions erun_kinds3.
 Print Assumptions erun_complete.
